@@ -12,7 +12,7 @@
 //   K 0 producer (WCONHIST) 1 water injector 2 gas injector (WCONINJH);
 //   U 0 METRIC 1 FIELD 2 LAB 3 PVT-M; D start date index; X 1 = every efficiency factor moves to the next value of its
 //   alphabet at the second report step; N well naming (0: declared in name order, 1-5: other permutations of A B C,
-//   6: W_2 W_9 W_10); S 0 open 1 shut 2 stop;
+//   6: W_2 W_9 W_10); S 0 open 1 shut 2 stop (cross-flow) 3 open with all computed rates exactly 0 4 stop with all rates 0;
 //   I 1 = evaluate report step 0 at t=0 first; Q evaluation sequence, element
 //   = length index (0: 1 d, 1: 10 d, 2: 0.5 d) + 'a' (closes its report step)
 //   or 's' (ministep, the report step continues with the next element).
@@ -139,6 +139,7 @@ static double fp_mag(int w, int q, int k) {
 }
 static double fp_rate(int w, int q, int k, int kind, int status) {
     int ph = q % 3;
+    if (status >= 3) return 0.0;                                                 // OPEN (3) / STOP (4) with all computed rates exactly zero
     if (status == 2) return (ph == 1 ? +0.01 : -0.01) * fp_mag(w, q, k);        // stopped: cross-flow, water in, oil+gas out
     if (kind == 0) return -fp_mag(w, q, k);
     if (kind == 1) return ph == 1 ? fp_mag(w, q, k) : 0.0;
@@ -321,7 +322,7 @@ struct Ref {
     Flow flow(int node, bool total_mode, int k, int hist_step) const {
         Flow f;
         for (int w = 0; w < 3; ++w) {
-            if (!under(w, node) || c.status[w] == 1) continue;           // shut wells contribute nothing
+            if (!under(w, node) || c.status[w] == 1) continue;           // shut wells contribute nothing; zero-rate OPEN/STOP wells (3, 4) still echo observed rates
             double wt = total_mode ? w_total(w, hist_step) : w_rate(w, node, hist_step);
             for (int q = 0; q < 6; ++q) {
                 double v = fp_rate(w, q, k, c.kind[w], c.status[w]) * wt;             // SI, m3/s
@@ -408,7 +409,7 @@ static Outcome run_case(const Case& c) {
             static const O opts[6] = {O::oil, O::wat, O::gas, O::reservoir_oil, O::reservoir_water, O::reservoir_gas};
             for (int q = 0; q < 6; ++q) dw.rates.set(opts[q], fp_rate(w, q, (int)k, c.kind[w], c.status[w]));
             dw.bhp = 1.0e7;
-            dw.dynamicStatus = c.status[w] == 0 ? Well::Status::OPEN : c.status[w] == 1 ? Well::Status::SHUT : Well::Status::STOP;
+            dw.dynamicStatus = (c.status[w] == 0 || c.status[w] == 3) ? Well::Status::OPEN : c.status[w] == 1 ? Well::Status::SHUT : Well::Status::STOP;
             wells[c.wn(w)] = dw;
         }
         b.sum->eval(st, evs[k].report, evs[k].t, wells, {}, {}, {}, {}, {});
@@ -469,7 +470,10 @@ static std::string diagnose(Case& c, int kw, const Mismatch& first) {
     if (k.cls == K_CAL) return "calendar";
     if (need_efac) return need_naming ? "efac:declaration-order" : "efac";
     if (need_naming) return "declaration-order";
-    if (need_status) { bool shut = false; for (int i = 0; i < 3; ++i) shut |= c.status[i] == 1; return shut ? "shut" : "sign"; }
+    if (need_status) {
+        bool shut = false, zero = false; for (int i = 0; i < 3; ++i) { shut |= c.status[i] == 1; zero |= c.status[i] >= 3; }
+        return shut ? "shut" : zero ? (k.hist ? "history:zero-rate-well" : "zero-rate-well") : "sign";
+    }
     if (need_kind) return k.hist ? "history" : "sign";
     if (need_seq) return "accumulate";
     if (need_tree) return "hierarchy";
@@ -619,7 +623,7 @@ int main(int argc, char** argv) {
     run.assumptions = {
         "reference model in the harness: hierarchy walk, efficiency weights, sign split, accumulation, ratios, calendar and unit factors (stb = 0.158987294928 m3, Mscf = 28.316846592 m3, day = 86400 s, LAB scc/hr) written independently of Summary.cpp/Units.hpp",
         "efficiency convention as documented in Summary.cpp and pinned by tests/test_Summary.cpp(efficiency_factor): a well's own rate is unweighted, a group's rate carries the factors of wells and groups strictly below it, FIELD rates and every cumulative total carry the well's factor and the factor of every group up to FIELD",
-        "dynamically SHUT wells are handed non-zero rates and observed rates so that 'contribute nothing' is not vacuous; STOP wells carry small cross-flow rates of mixed sign and contribute by sign",
+        "dynamically SHUT wells are handed non-zero rates and observed rates so that 'contribute nothing' is not vacuous; STOP wells carry small cross-flow rates of mixed sign and contribute by sign; OPEN/STOP wells whose six computed rates are all exactly 0 contribute 0 to computed vectors but their observed WCONHIST/WCONINJH rates are still echoed in every history rate, ratio and total (history is independent of the computed rates for every well that is not shut)",
         "wells only in leaf groups (the library rejects groups with both wells and sub-groups); group membership and well kind constant in time, efficiency factors change at most once (report step 2); rates are fingerprints, not physical solutions",
         "vectors outside W/G/F x {O,W,G,L,V} x {P,I} x {R,T,RH,TH}, the five ratios (+H) and the time vectors are not covered; connection/segment/region vectors not covered"};
     if (!setup_catalogue()) return run.finish();
@@ -647,7 +651,7 @@ int main(int argc, char** argv) {
     //      default: all open producers, efficiency 1, METRIC, start 0, one 1 d step, no step-0 evaluation
     //      thorough adds the third deviation with a 4-element sequence alphabet (subset of the <= 2-evaluation sequences)
     const std::vector<std::vector<std::pair<int, int>>> seq4 = {{{0, 0}}, {{1, 0}, {2, 0}}, {{0, 1}, {1, 0}}, {{2, 0}, {0, 0}}};
-    auto regimeA = [&](int budget, const std::vector<std::vector<std::pair<int, int>>>& seqA, int skip_upto, const char* name) {
+    auto regimeA = [&](int budget, const std::vector<std::vector<std::pair<int, int>>>& seqA, int nstatus, int skip_upto, const char* name) {
         const int ng = 3; use_summary_for(ng);
         const auto& tr = tr3;
         vf::explore([&](vf::Chooser& ch) {
@@ -664,13 +668,13 @@ int main(int argc, char** argv) {
             { static const int NA[4] = {0, 1, 2, 6}; c.naming = NA[ch.dev(4)]; }     // name order, reverse, B A C, W_2 W_9 W_10
             c.seq = seqA[ch.dev((int)seqA.size())];
             c.init = ch.dev(2);
-            for (int w = 0; w < 3; ++w) c.status[w] = ch.dev(3);
+            for (int w = 0; w < 3; ++w) c.status[w] = ch.dev(nstatus);
             if (ch.used <= skip_upto) return;          // already executed by the regime with the smaller budget
             exec(name, c);
         }, budget, stop);
     };
-    regimeA(2, seq2, -1, "A_dev2");
-    if (run.thorough()) regimeA(3, seq4, 2, "A_dev3");
+    regimeA(2, seq2, run.thorough() ? 5 : 4, -1, "A_dev2");      // status alphabet: quick OPEN SHUT STOP OPEN-zero, thorough + STOP-zero
+    if (run.thorough()) regimeA(3, seq4, 3, 2, "A_dev3");         // third deviation: OPEN SHUT STOP only
 
     // ---- regime B: every evaluation sequence (<= 3 evaluations, ministep patterns) x unit system x step-0 evaluation on three rich models
     {
@@ -683,6 +687,21 @@ int main(int argc, char** argv) {
             if (stop()) break;
             Case c = Case::parse(models[m]); c.us = us; c.start = (int)((q + m) % 3); c.seq = seq3[q]; c.init = init; c.xe = (int)((q + m) % 2);
             exec("B_sequences_x_units", c);
+        }
+    }
+
+    // ---- regime E: wells whose computed rates are all exactly zero while OPEN (3) or STOP (4): observed rates must still be echoed
+    {
+        use_summary_for(3);
+        static const int KK[3][3] = {{0, 0, 0}, {0, 1, 2}, {1, 0, 0}};
+        static const int SS[9][3] = {{3, 0, 0}, {0, 3, 0}, {0, 0, 3}, {4, 0, 0}, {0, 4, 0}, {0, 0, 4}, {3, 3, 3}, {3, 4, 1}, {2, 3, 4}};
+        for (auto& t : tr3) {
+            Case c; c.ng = 3; set_tree(c, t);
+            for (auto& pl : placements(c)) for (int kk = 0; kk < 3; ++kk) for (int ss = 0; ss < 9 && !stop(); ++ss) {
+                for (int w = 0; w < 3; ++w) { c.wg[w] = pl[w]; c.we[w] = 1; c.ge[w] = 2; c.kind[w] = KK[kk][w]; c.status[w] = SS[ss][w]; }
+                c.seq = {{0, 0}, {2, 0}};
+                exec("E_zero_rate_wells", c);
+            }
         }
     }
 
@@ -714,13 +733,13 @@ int main(int argc, char** argv) {
                 exec("C1_efac_product_3groups", c);
             }
         }
-        // ---- C2: 3 groups, forest x placement x all 27 kind assignments x all 27 status assignments (efficiency factors all non-unit)
+        // ---- C2: 3 groups, forest x placement x all 27 kind assignments x all 64 status assignments over {OPEN, SHUT, STOP, OPEN-zero} (efficiency factors all non-unit)
         for (auto& t : tr3) {
             Case c; c.ng = 3; set_tree(c, t);
-            for (auto& pl : placements(c)) for (int k = 0; k < 27 && !stop(); ++k) for (int sidx = 0; sidx < 27; ++sidx) {
+            for (auto& pl : placements(c)) for (int k = 0; k < 27 && !stop(); ++k) for (int sidx = 0; sidx < 64; ++sidx) {
                 for (int w = 0; w < 3; ++w) { c.wg[w] = pl[w]; c.we[w] = 1; c.ge[w] = 1; }
                 int x = k; for (int w = 0; w < 3; ++w) { c.kind[w] = x % 3; x /= 3; }
-                x = sidx; for (int w = 0; w < 3; ++w) { c.status[w] = x % 3; x /= 3; }
+                x = sidx; for (int w = 0; w < 3; ++w) { c.status[w] = x % 4; x /= 4; }
                 c.seq = {{0, 0}, {2, 0}};
                 exec("C2_kind_x_status_product", c);
             }
@@ -757,12 +776,12 @@ int main(int argc, char** argv) {
     if (run.counters["violations_total"] > 300) { run.exhaustive = false; run.cap_note += "stopped after >300 mismatching vectors; "; }
     run.count("model_builds", (long long)g_builds);
     run.rule = std::string("models: 3 wells (fingerprint rates per well x phase x evaluation, sign by kind) in leaf groups of a group forest under FIELD; dimensions: forest (all 16 labelled forests of 3 groups") +
-        (run.thorough() ? "; all 125 of 4 groups, depth <= 4" : "") + ") x leaf placement of the wells x WEFAC/GEFAC in {1, ~0.5, ~0.25} distinct per entity x kind {producer WCONHIST, water injector, gas injector WCONINJH} x dynamic status {OPEN, SHUT, STOP} x {METRIC, FIELD, LAB, PVT-M} x 3 start dates x evaluation sequences over {1 d, 10 d, 0.5 d} with ministep flags x {with, without} step-0 evaluation x {constant, changed at report step 2} efficiency factors x well naming {declared in name order W1 W2 W3; the 5 other permutations of OP_A OP_B OP_C; W_2 W_9 W_10 (numeric, not lexicographic)}. " +
+        (run.thorough() ? "; all 125 of 4 groups, depth <= 4" : "") + ") x leaf placement of the wells x WEFAC/GEFAC in {1, ~0.5, ~0.25} distinct per entity x kind {producer WCONHIST, water injector, gas injector WCONINJH} x dynamic status {OPEN, SHUT, STOP with cross-flow, OPEN with all six computed rates exactly 0, STOP with all rates 0} x {METRIC, FIELD, LAB, PVT-M} x 3 start dates x evaluation sequences over {1 d, 10 d, 0.5 d} with ministep flags x {with, without} step-0 evaluation x {constant, changed at report step 2} efficiency factors x well naming {declared in name order W1 W2 W3; the 5 other permutations of OP_A OP_B OP_C; W_2 W_9 W_10 (numeric, not lexicographic)}. " +
         "A: every combination with <= 2 deviations from the default (open producers, constant efficiency 1, METRIC, one 1 d step, no step-0 evaluation) over all 105 forest x placement pairs, all 21 sequences of <= 2 evaluations" +
         (run.thorough() ? ", and every combination with exactly 3 deviations where the sequence is one of {1d; 10d,0.5d; 1d(ministep),10d; 0.5d,1d}; " : "; ") +
-        "(naming alphabet in A: name order, reverse, B A C, W_2 W_9 W_10); B: all 129 sequences of <= 3 evaluations x 4 unit systems x step-0 evaluation on 3 fixed rich models" +
+        "(naming alphabet in A: name order, reverse, B A C, W_2 W_9 W_10; status alphabet in A: " + (run.thorough() ? "all five for <= 2 deviations, OPEN/SHUT/STOP for the third" : "OPEN, SHUT, STOP, OPEN-zero") + "); E: 105 pairs x 3 kind assignments x 9 status patterns with zero-rate OPEN/STOP wells (one well at a time, all, mixed with SHUT/STOP), all factors non-unit; B: all 129 sequences of <= 3 evaluations x 4 unit systems x step-0 evaluation on 3 fixed rich models" +
         (run.thorough() ? "; D: 6 non-default namings x 105 pairs x complete 2^6 efficiency product" : "; D: 6 non-default namings x 105 pairs x all factors non-unit") +
-        (run.thorough() ? "; C1: 105 pairs x complete 3^6 efficiency product x 2 kind assignments; C2: 105 pairs x 27 kind x 27 status assignments; C3: 1420 pairs (4 groups) x complete 2^7 efficiency product; C4: 450 pairs (4 groups, increasing forests) x 3-valued efficiency factors on <= 2 entities" : "") +
+        (run.thorough() ? "; C1: 105 pairs x complete 3^6 efficiency product x 2 kind assignments; C2: 105 pairs x 27 kind x 64 status assignments over {OPEN, SHUT, STOP, OPEN-zero}; C3: 1420 pairs (4 groups) x complete 2^7 efficiency product; C4: 450 pairs (4 groups, increasing forests) x 3-valued efficiency factors on <= 2 entities" : "") +
         ". Oracle: after every Summary::eval each of the checked vectors (see notes.vectors_checked) at every well/group/FIELD node equals the harness reference (rel 1e-10). distinct = distinct vectors of all observed values";
     return run.finish();
 }
